@@ -15,7 +15,7 @@ The seed is stored under /verif/seeded/<PROP>-<name>/ with a meta.json recording
 import json, os, re, shutil, subprocess, sys, tempfile
 
 VERIF = os.path.dirname(os.path.dirname(os.path.abspath(__file__)))
-PROPS = "C01 C02 C03 C04 C05 C06 C07 C08 C09 C10 C11 C12 C13 C14 C16 C17 C18 C19 C20".split()
+PROPS = "C01 C02 C03 C04 C05 C06 C07 C08 C09 C10 C11 C12 C13 C14 C15 C16 C17 C18 C19 C20".split()
 
 
 def sh(cmd, **kw):
